@@ -13,6 +13,10 @@ OBLIGATIONS = [
     (P + "whitelist_only", "for all rules (arbitrary attribute predicates), y: validate r y = true -> every markup candidate the "
                            "independent lenient tokenizer finds in y is Allowed by r"),
     (P + "whitelisted_of_filterValidates", "FilterValidates -> FilterOutputWhitelisted (composition of clause 1 with whitelist_only)"),
+    (P + "filter_validates_partial", "XHTML rule sets (r.xhtml = true), RulesOk r: for all inputs x and both methods, validate r (filter r m x) = true "
+                                     "[HTML mode not proved: judge-only]"),
+    (P + "filter_output_whitelisted_partial", "XHTML rule sets: every markup candidate of filter r m x (lenient tokenizer) is Allowed"),
+    (P + "filter_idempotent_partial", "XHTML rule sets: filter r m' (filter r m x) = filter r m x"),
     (P + "exRules_ok", "non-vacuity: a concrete rule set satisfying RulesOk (examples in Props.lean evaluate validate/filter on it)"),
 ]
 
